@@ -59,7 +59,13 @@ partial def evalExpr : SExp → Ev
         if byName && !known then .unsup
         else match ArithTable.evalKey name vals with
           | none => .unsup
-          | some (.ok v) => .val v (ex && v.isDouble)
+          | some (.ok v) =>
+            -- an int operand next to a float operand is converted to a float by Python: must be exact too
+            let hasFlt := vals.any fun x => match x with | .flt _ => true | _ => false
+            let intsOk := vals.all fun x => match x with
+              | .int i => PyNum.stripTwos i.natAbs < 2 ^ 53
+              | _ => true
+            .val v (ex && v.isDouble && (!hasFlt || intsOk))
           | some (.error .unsupported) => .unsup
           | some (.error e) =>
             if ArithTable.mappedErrors.contains (errName e) then .err "ArithmeticError"
